@@ -19,8 +19,8 @@ theorem code_syscommMessages (b : Nat) : midi.syscommMessages b = syscommMessage
   unfold midi.syscommMessages syscommMessages
   rfl
 
-theorem code_Type_Is (t c : Int) : midi.Type.Is t c = typeIs t c := by
-  unfold midi.Type.Is typeIs
+theorem code_Type_Is (t c : Int) : midi.Type'.Is t c = typeIs t c := by
+  unfold midi.Type'.Is typeIs
   simp only [Id.run, UnknownMsg, SysExMsg, RealTimeMsg, SysCommonMsg, ChannelMsg, MetaMsg, reservedRealTimeMsg14, MTCMsg,
     reservedSysCommonMsg10, NoteOnMsg, reservedChannelMsg16, firstMetaMsg]
   by_cases h0 : t = 0
